@@ -8,8 +8,9 @@ open ParsecVerif ParsecVerif.Proto ParsecVerif.Argv ParsecVerif.CmdLine
 structure St where
   v : Vec
   c : Int
+  h : Option Handle := none
 
-def init : St := ⟨none, 0⟩
+def init : St := ⟨none, 0, none⟩
 
 def safeByte (b : Nat) : Bool :=
   (48 ≤ b && b ≤ 57) || (65 ≤ b && b ≤ 90) || (97 ≤ b && b ≤ 122) ||
@@ -109,13 +110,29 @@ def decOpts : Nat → List String → Except Bool (List Opt × Bool × List Stri
     | _, _ => .error true
   | _, _ => .error true
 
-def encQuery (opts : List Opt) (r : Result) (k : Nat) (form : String) (name : Str) : String :=
-  let n := ninsts opts r name
-  let np : Nat := match find opts name with | some (_, o) => o.nparams.toNat | none => 0
+def encQueryH (h : Handle) (k : Nat) (form : String) (name : Str) : String :=
+  let n := h.ninsts name
+  let np : Nat := match find h.opts name with | some (_, o) => o.nparams.toNat | none => 0
   let insts := (List.range n).map (fun inst =>
-    let ps := ((List.range (np + 1)).map (fun idx => getParam opts r name inst idx)).takeWhile Option.isSome
+    let ps := ((List.range (np + 1)).map (fun idx => h.getParam name inst idx)).takeWhile Option.isSome
     " (" ++ String.join (ps.filterMap id |>.map (fun p => " " ++ encWord p)) ++ " )")
   s!" {k}{form}:{n}" ++ String.join insts
+
+/-- the dump the harness prints through get_argc/get_argv, get_tail and get_ninsts/get_param -/
+def dumpH (h : Handle) : String :=
+  let args := (List.range h.argc.toNat).map (fun (i : Nat) => match h.getArgv (i : Int) with | some a => encWord a | none => "NULL")
+  let cnt := (count h.argv)
+  let qs := (List.range h.opts.length).zip h.opts |>.map (fun (k, o) =>
+    (match o.short with | some c => encQueryH h k "s" [c] | none => "") ++
+    (match o.sd with | some s => encQueryH h k "d" s | none => "") ++
+    (match o.long with | some s => encQueryH h k "l" s | none => ""))
+  s!"argv={h.argc}:[{" ".intercalate args}]" ++ (if h.argc ≠ cnt then s!"!count={cnt}" else "") ++
+    s!" tail={h.getTail.1}:{encVec h.getTail.2} q=" ++ String.join qs
+
+/-- add table entries until one is refused (`parsec_cmd_line_create` / the harness loop) -/
+def addAll (h : Handle) : List Opt → Int × Handle
+  | [] => (SUCCESS, h)
+  | e :: t => if (h.addOpt e).1 ≠ SUCCESS then h.addOpt e else addAll (h.addOpt e).2 t
 
 def doParse (ws : List String) : String :=
   match ws with
@@ -133,19 +150,76 @@ def doParse (ws : List String) : String :=
           | .error false => "rejected"
           | .ok av =>
             if rej then "rejected" else
-            let (crc, opts) := create [] table
+            let (crc, h) := addAll Handle.new table
             if crc ≠ SUCCESS then s!"create={crc}" else
-            let r := parse opts (ign = 1) av
-            if r.outOfFuel then "model-out-of-fuel" else
-            let qs := (List.range table.length).zip table |>.map (fun (k, o) =>
-              (match o.short with | some c => encQuery opts r k "s" [c] | none => "") ++
-              (match o.sd with | some s => encQuery opts r k "d" s | none => "") ++
-              (match o.long with | some s => encQuery opts r k "l" s | none => ""))
-            (if r.doubleFree then "double-free " else "") ++   -- never (C39.parse_no_double_free)
-            s!"rc={r.rc} argv={r.argv.length}:{encVec (some r.argv)} tail={r.tail.length}:{encVec (ofList r.tail)} q=" ++
-              String.join qs
+            if (parse h.opts (ign = 1) av).outOfFuel then "model-out-of-fuel" else
+            let r := h.parse (ign = 1) av
+            s!"rc={r.1} " ++ dumpH r.2
     | _, _ => "bad-op"
   | _ => "bad-op"
+
+def doHnew (s : St) (ws : List String) : St × String :=
+  match ws with
+  | nopt :: rest =>
+    match decInt nopt with
+    | some nopt =>
+      if nopt < 0 then (s, "bad-op")
+      else if nopt > 32 then (s, "rejected")
+      else if (rest.length : Int) < 4 * nopt then (s, "bad-op")
+      else match decOpts nopt.toNat rest with
+        | .error _ => (s, "bad-op")
+        | .ok (table, rej, extra) =>
+          if extra ≠ [] then (s, "bad-op")
+          else if rej then (s, "rejected")
+          else
+            let (crc, h) := addAll Handle.new table
+            ({ s with h := some h }, s!"hrc={crc} nopts={h.opts.length}")
+    | none => (s, "bad-op")
+  | _ => (s, "bad-op")
+
+def doHop (s : St) (h : Handle) : List String → St × String
+  | ["haddopt", sh, sd, lg, np] =>
+    match decOpts 1 [sh, sd, lg, np] with
+    | .error _ => (s, "bad-op")
+    | .ok (table, rej, _) =>
+      if rej then (s, "rejected")
+      else if h.opts.length ≥ 32 then (s, "rejected")
+      else match table with
+        | [e] => let r := h.addOpt e; ({ s with h := some r.2 }, s!"{r.1} nopts={r.2.opts.length}")
+        | _ => (s, "bad-op")
+  | "hparse" :: ign :: ws =>
+    match decInt ign with
+    | some ign =>
+      if ign ≠ 0 ∧ ign ≠ 1 then (s, "bad-op") else
+      match decVec ws with
+      | .error e => (s, failWord e)
+      | .ok av =>
+        if (parse h.opts (ign = 1) av).outOfFuel then (s, "model-out-of-fuel") else
+        let r := h.parse (ign = 1) av
+        ({ s with h := some r.2 }, s!"rc={r.1} " ++ dumpH r.2)
+    | none => (s, "bad-op")
+  | ["hdump"] => (s, dumpH h)
+  | ["htail"] => (s, s!"{h.getTail.1}:{encVec h.getTail.2}")
+  | ["hninsts", w] =>
+    match decWord w with
+    | .ok x => (s, toString (h.ninsts x))
+    | .hasNul => (s, "rejected")
+    | _ => (s, "bad-op")
+  | ["hparam", w, inst, idx] =>
+    match decInt inst, decInt idx with
+    | some a, some b =>
+      match decWord w with
+      | .ok x =>
+        if a < 0 ∨ b < 0 ∨ a > BIG ∨ b > BIG then (s, "rejected")
+        else (s, match h.getParam x a.toNat b.toNat with | some p => encWord p | none => "NULL")
+      | .hasNul => (s, "rejected")
+      | _ => (s, "bad-op")
+    | _, _ => (s, "bad-op")
+  | ["hargv", i] =>
+    match decInt i with
+    | some a => if big a then (s, "rejected") else (s, match h.getArgv a with | some p => encWord p | none => "NULL")
+    | none => (s, "bad-op")
+  | _ => (s, "bad-op")
 
 def withWord (w : String) (k : Str → St × String) (s : St) : St × String :=
   match decWord w with
@@ -155,23 +229,23 @@ def withWord (w : String) (k : Str → St × String) (s : St) : St × String :=
 
 def step (s : St) : List String → St × String
   | ["case", _] => (init, "ok")
-  | ["null"] => (init, encState init)
+  | ["null"] => ({ s with v := none, c := 0 }, encState init)
   | "setv" :: ws =>
     match decVec ws with
-    | .ok l => let s' : St := ⟨some l, l.length⟩; (s', encState s')
+    | .ok l => let s' : St := { s with v := some l, c := l.length }; (s', encState s')
     | .error e => (s, failWord e)
   | ["append", w] => withWord w (fun x =>
-      let r := append s.v x; let s' : St := ⟨r.2, r.1⟩; (s', s!"0 {encState s'}")) s
+      let r := append s.v x; let s' : St := { s with v := r.2, c := r.1 }; (s', s!"0 {encState s'}")) s
   | ["appendn", w] => withWord w (fun x =>
-      let s' : St := ⟨appendNosize s.v x, s.c⟩; (s', s!"0 {encState s'}")) s
+      let s' : St := { s with v := appendNosize s.v x }; (s', s!"0 {encState s'}")) s
   | ["prepend", w] => withWord w (fun x =>
-      let s' : St := ⟨prependNosize s.v x, s.c⟩; (s', s!"0 {encState s'}")) s
+      let s' : St := { s with v := prependNosize s.v x }; (s', s!"0 {encState s'}")) s
   | ["appendu", w, ow] =>
     match decInt ow with
     | some ow =>
       if ow ≠ 0 ∧ ow ≠ 1 then (s, "bad-op") else
       withWord w (fun x =>
-        let s' : St := ⟨appendUniqueNosize s.v x (ow = 1), s.c⟩; (s', s!"0 {encState s'}")) s
+        let s' : St := { s with v := appendUniqueNosize s.v x (ow = 1) }; (s', s!"0 {encState s'}")) s
     | none => (s, "bad-op")
   | "insert" :: st :: ws =>
     match decInt st with
@@ -179,12 +253,12 @@ def step (s : St) : List String → St × String
     | some a =>
       if ws = ["NULL"] then
         if big a then (s, "rejected") else
-        let r := insert s.v a none; let s' : St := ⟨r.2, s.c⟩; (s', s!"{r.1} {encState s'}")
+        let r := insert s.v a none; let s' : St := { s with v := r.2 }; (s', s!"{r.1} {encState s'}")
       else match decVec ws with
         | .error e => (s, failWord e)
         | .ok src =>
           if big a then (s, "rejected") else
-          let r := insert s.v a (some src); let s' : St := ⟨r.2, s.c⟩; (s', s!"{r.1} {encState s'}")
+          let r := insert s.v a (some src); let s' : St := { s with v := r.2 }; (s', s!"{r.1} {encState s'}")
   | ["inselt", loc, w] =>
     match decInt loc with
     | none => (s, "bad-op")
@@ -195,12 +269,12 @@ def step (s : St) : List String → St × String
       | wd =>
         if big a then (s, "rejected") else
         let src : Option Str := match wd with | .ok x => some x | _ => none
-        let r := insertElement s.v a src; let s' : St := ⟨r.2, s.c⟩; (s', s!"{r.1} {encState s'}")
+        let r := insertElement s.v a src; let s' : St := { s with v := r.2 }; (s', s!"{r.1} {encState s'}")
   | ["delete", st, num] =>
     match decInt st, decInt num with
     | some a, some b =>
       if big a || big b then (s, "rejected") else
-      let r := delete s.c s.v a b; let s' : St := ⟨r.2.2, r.2.1⟩; (s', s!"{r.1} {encState s'}")
+      let r := delete s.c s.v a b; let s' : St := { s with v := r.2.2, c := r.2.1 }; (s', s!"{r.1} {encState s'}")
     | _, _ => (s, "bad-op")
   | ["count"] => (s, toString (count s.v))
   | ["len"] => (s, toString (len s.v))
@@ -218,6 +292,13 @@ def step (s : St) : List String → St × String
   | "split" :: ws => (s, doSplit false ws)
   | "splite" :: ws => (s, doSplit true ws)
   | "parse" :: ws => (s, doParse ws)
+  | "hnew" :: ws => doHnew s ws
+  | w :: ws =>
+    if w.startsWith "h" then
+      match s.h with
+      | none => (s, "rejected")
+      | some h => doHop s h (w :: ws)
+    else (s, "bad-op")
   | _ => (s, "bad-op")
 
 def main : IO Unit := Proto.run init step
